@@ -57,6 +57,25 @@ pub enum SExp {
     And(Vec<SExp>),
     Or(Vec<SExp>),
     Not(Box<SExp>),
+    /// binary connectives over Boolean operands, used as a 0/1 value
+    Logic2(LOp, Box<SExp>, Box<SExp>),
+}
+
+#[derive(Clone, Copy, Debug, PartialEq, Eq, Serialize, Deserialize)]
+pub enum LOp {
+    Implies,
+    Iff,
+    Xor,
+}
+
+impl LOp {
+    pub fn apply(&self, a: bool, b: bool) -> bool {
+        match self {
+            LOp::Implies => !a || b,
+            LOp::Iff => a == b,
+            LOp::Xor => a != b,
+        }
+    }
 }
 
 #[derive(Clone, Debug, PartialEq, Serialize, Deserialize)]
@@ -102,6 +121,9 @@ impl SExp {
             SExp::And(es) => Exp::And(es.iter().map(|e| e.to_exp(vars)).collect()),
             SExp::Or(es) => Exp::Or(es.iter().map(|e| e.to_exp(vars)).collect()),
             SExp::Not(e) => Exp::Not(b(e)),
+            SExp::Logic2(LOp::Implies, l, r) => Exp::Implies(b(l), b(r)),
+            SExp::Logic2(LOp::Iff, l, r) => Exp::Iff(b(l), b(r)),
+            SExp::Logic2(LOp::Xor, l, r) => Exp::Xor(b(l), b(r)),
         }
     }
 
@@ -113,7 +135,7 @@ impl SExp {
         let own = if own.is_finite() { own } else { 0.0 };
         let kids: f64 = match self {
             SExp::Num(_) | SExp::Var(_) => 0.0,
-            SExp::Add(l, r) | SExp::Sub(l, r) => l.magnitude(x).max(r.magnitude(x)),
+            SExp::Add(l, r) | SExp::Sub(l, r) | SExp::Logic2(_, l, r) => l.magnitude(x).max(r.magnitude(x)),
             SExp::MulL(_, e) | SExp::MulR(e, _) | SExp::Div(e, _) | SExp::Neg(e) | SExp::Abs(e) | SExp::Not(e) => {
                 e.magnitude(x)
             }
@@ -159,6 +181,13 @@ impl SExp {
                     1.0
                 }
             }
+            SExp::Logic2(op, l, r) => {
+                if op.apply(l.eval(x) != 0.0, r.eval(x) != 0.0) {
+                    1.0
+                } else {
+                    0.0
+                }
+            }
         }
     }
 
@@ -197,6 +226,13 @@ impl SExp {
                     Q::ONE
                 }
             }
+            SExp::Logic2(op, l, r) => {
+                if op.apply(truthy(l.eval_q(x)), truthy(r.eval_q(x))) {
+                    Q::ONE
+                } else {
+                    Q::ZERO
+                }
+            }
         }
     }
 
@@ -204,7 +240,7 @@ impl SExp {
         out.push(self);
         match self {
             SExp::Num(_) | SExp::Var(_) => {}
-            SExp::Add(l, r) | SExp::Sub(l, r) => {
+            SExp::Add(l, r) | SExp::Sub(l, r) | SExp::Logic2(_, l, r) => {
                 l.subexpressions(out);
                 r.subexpressions(out);
             }
@@ -232,7 +268,7 @@ impl SExp {
                 .map(|e| e.branch_count())
                 .fold(1u64, |a, b| a.saturating_mul(b))
                 .saturating_mul(es.len() as u64),
-            SExp::And(_) | SExp::Or(_) | SExp::Not(_) => 1,
+            SExp::And(_) | SExp::Or(_) | SExp::Not(_) | SExp::Logic2(..) => 1,
         }
     }
 }
@@ -262,6 +298,7 @@ impl std::fmt::Display for SExp {
             SExp::And(es) => write!(f, "and{{{}}}", list(es)),
             SExp::Or(es) => write!(f, "or{{{}}}", list(es)),
             SExp::Not(e) => write!(f, "not {e}"),
+            SExp::Logic2(op, l, r) => write!(f, "({l} {} {r})", match op { LOp::Implies => "implies", LOp::Iff => "iff", LOp::Xor => "xor" }),
         }
     }
 }
@@ -351,6 +388,7 @@ impl SrcModel {
                         !es.is_empty() && es.iter().all(|a| self.is_boolean_exp(a))
                     }
                     SExp::Not(a) => self.is_boolean_exp(a),
+                    SExp::Logic2(_, a, b) => self.is_boolean_exp(a) && self.is_boolean_exp(b),
                     _ => true,
                 })
             })
@@ -361,6 +399,7 @@ impl SrcModel {
             SExp::Var(i) => matches!(self.vars.get(*i).map(|v| &v.dom), Some(Dom::Bool)),
             SExp::And(es) | SExp::Or(es) => es.iter().all(|a| self.is_boolean_exp(a)),
             SExp::Not(a) => self.is_boolean_exp(a),
+            SExp::Logic2(_, a, b) => self.is_boolean_exp(a) && self.is_boolean_exp(b),
             _ => false,
         }
     }
@@ -464,6 +503,7 @@ impl Expander<'_> {
             SExp::And(es) => es.iter().all(|a| self.logic(a)),
             SExp::Or(es) => es.iter().any(|a| self.logic(a)),
             SExp::Not(a) => !self.logic(a),
+            SExp::Logic2(op, a, b) => op.apply(self.logic(a), self.logic(b)),
             _ => panic!("generator bug: non-boolean operand inside a logic operator"),
         }
     }
@@ -567,7 +607,7 @@ impl Expander<'_> {
                 }
                 out
             }
-            SExp::And(_) | SExp::Or(_) | SExp::Not(_) => {
+            SExp::And(_) | SExp::Or(_) | SExp::Not(_) | SExp::Logic2(..) => {
                 let v = if self.logic(e) { Q::ONE } else { Q::ZERO };
                 vec![(Aff::constant(self.nc, v), vec![])]
             }
@@ -1539,10 +1579,13 @@ fn piecewise(rng: &mut Rng, vars: &[Var], inexact: bool, depth: usize) -> SExp {
                 SExp::Abs(Box::new(leaf(rng)))
             } else {
                 let pickb = |rng: &mut Rng| SExp::Var(*rng.pick(&bools));
-                let logic = match rng.below(3) {
+                let logic = match rng.below(6) {
                     0 => SExp::And(vec![pickb(rng), pickb(rng)]),
                     1 => SExp::Or(vec![pickb(rng), SExp::Not(Box::new(pickb(rng)))]),
-                    _ => SExp::Not(Box::new(pickb(rng))),
+                    2 => SExp::Not(Box::new(pickb(rng))),
+                    3 => SExp::Logic2(LOp::Implies, Box::new(pickb(rng)), Box::new(pickb(rng))),
+                    4 => SExp::Logic2(LOp::Iff, Box::new(pickb(rng)), Box::new(pickb(rng))),
+                    _ => SExp::Logic2(LOp::Xor, Box::new(pickb(rng)), Box::new(pickb(rng))),
                 };
                 SExp::Add(Box::new(logic), Box::new(leaf(rng)))
             }
@@ -1646,7 +1689,7 @@ pub fn gen_src_model(rng: &mut Rng) -> (String, SrcModel) {
 }
 
 fn gen_src_model_once(rng: &mut Rng) -> (String, SrcModel) {
-    let shape = rng.weighted(&[26, 12, 22, 8, 9, 9, 8, 3, 5, 4]);
+    let shape = rng.weighted(&[26, 12, 22, 8, 9, 9, 8, 3, 5, 4, 5]);
     let inexact = rng.chance(1, 4);
     let n = rng.usize(2, 4);
     let names: Vec<String> = (0..n).map(|i| format!("v{i}")).collect();
@@ -1777,6 +1820,56 @@ fn gen_src_model_once(rng: &mut Rng) -> (String, SrcModel) {
                 push(&mut cons, SExp::Var(2), Cmp::Le, SExp::Var(0));
             }
             "slow-convergence"
+        }
+        10 => {
+            // a binary connective over two Booleans used as a 0/1 number next to a numeric
+            // variable, with one operand pinned by another row (directly, or through a
+            // little chain) so that propagation decides or half-decides the connective
+            vars[0].dom = if rng.chance(1, 2) {
+                Dom::Int { lo: 0, hi: rng.range(10, 100) as i32 }
+            } else {
+                Dom::Real { lo: Some(-(rng.range(0, 5) as f64)), hi: Some(rng.range(8, 60) as f64) }
+            };
+            vars[1].dom = Dom::Bool;
+            let (a, b) = if n > 2 {
+                vars[2].dom = Dom::Bool;
+                (1usize, 2usize)
+            } else {
+                (1usize, 1usize)
+            };
+            let op = *rng.pick(&[LOp::Implies, LOp::Implies, LOp::Iff, LOp::Xor]);
+            let (l, r) = if rng.chance(1, 2) { (a, b) } else { (b, a) };
+            let mut logic = SExp::Logic2(op, Box::new(SExp::Var(l)), Box::new(SExp::Var(r)));
+            if rng.chance(1, 4) {
+                logic = SExp::Not(Box::new(logic));
+            }
+            let scaled = SExp::MulL(Dec::int(rng.range(1, 6)), Box::new(logic));
+            let body = SExp::Add(Box::new(SExp::Num(Dec::int(rng.range(0, 4)))), Box::new(scaled));
+            let body = match rng.below(3) {
+                0 => body,
+                1 => SExp::Max(vec![body, SExp::Num(Dec::int(rng.range(0, 3)))]),
+                _ => SExp::Abs(Box::new(body)),
+            };
+            push(&mut cons, SExp::Var(0), if rng.chance(2, 3) { Cmp::Ge } else { Cmp::Le }, body);
+            // the pin
+            let pinned = *rng.pick(&[a, b]);
+            match rng.below(4) {
+                0 => push(&mut cons, SExp::Var(pinned), Cmp::Ge, SExp::Num(Dec::int(1))),
+                1 => push(&mut cons, SExp::Var(pinned), Cmp::Le, SExp::Num(Dec::int(0))),
+                2 if n > 3 => {
+                    // b + c <= 1, c >= 1  =>  b = 0
+                    vars[3].dom = Dom::Bool;
+                    push(
+                        &mut cons,
+                        SExp::Add(Box::new(SExp::Var(pinned)), Box::new(SExp::Var(3))),
+                        Cmp::Le,
+                        SExp::Num(Dec::int(1)),
+                    );
+                    push(&mut cons, SExp::Var(3), Cmp::Ge, SExp::Num(Dec::int(1)));
+                }
+                _ => {}
+            }
+            "logic-as-number"
         }
         9 => {
             // large magnitudes with a row that is tight (or nearly so) at the variables' own
@@ -2038,6 +2131,25 @@ fn gen_src_model_once(rng: &mut Rng) -> (String, SrcModel) {
             label
         }
     };
+    // a logic operator somewhere: half of the time another row pins one of the Booleans, so
+    // that the operator's value is decided (or half-decided) by propagation
+    let has_logic = cons.iter().any(|c| {
+        let mut subs = Vec::new();
+        c.lhs.subexpressions(&mut subs);
+        c.rhs.subexpressions(&mut subs);
+        subs.iter().any(|e| matches!(e, SExp::And(_) | SExp::Or(_) | SExp::Not(_) | SExp::Logic2(..)))
+    });
+    if has_logic && rng.chance(1, 2) {
+        let bools: Vec<usize> = (0..n).filter(|i| matches!(vars[*i].dom, Dom::Bool)).collect();
+        if !bools.is_empty() {
+            let b = *rng.pick(&bools);
+            if rng.chance(1, 2) {
+                push(&mut cons, SExp::Var(b), Cmp::Ge, SExp::Num(Dec::int(1)));
+            } else {
+                push(&mut cons, SExp::Var(b), Cmp::Le, SExp::Num(Dec::int(0)));
+            }
+        }
+    }
     (
         label.to_string(),
         SrcModel {
